@@ -4,9 +4,17 @@
 # Uses one fixed scratch worktree /tmp/mw/base (own cargo target dir, kept warm) under flock.
 # Prints "SUITE-PASS" (every BASELINE stable_pass test passed) or "SUITE-FAIL" + the tests not passed.
 set -u
-W=/tmp/mw/base
 mkdir -p /tmp/mw
-exec 9>/tmp/mw/lock; flock 9
+# pool of build areas (each keeps its own warm target dir); wait for a free one
+W=
+while [ -z "$W" ]; do
+  for k in "" 2; do
+    exec 9>"/tmp/mw/lock$k"
+    if flock -n 9; then W=/tmp/mw/base$k; break; fi
+    exec 9>&-
+  done
+  [ -z "$W" ] && sleep 10
+done
 head=$(git -C /repo rev-parse HEAD)
 if [ ! -d $W ]; then git -C /repo worktree prune; git -C /repo worktree add --detach $W "$head" >/dev/null 2>&1 || exit 97; fi
 git -C $W checkout -q -- . ; git -C $W clean -qfd -e target
